@@ -13,6 +13,21 @@
 // field mismatch. Filters are additionally probed with names built to violate exactly the
 // options that were set (reference: oracle.Filter), rewriters with a sample input.
 //
+// Patterns, prefixes, substrings, keys, templates and instance names are generated over an alphabet
+// with upper-case letters, digits, escaped classes (\S \D \W \d \B), upper-case ranges and named
+// groups, and every filter / rewriter probe is also tried lower-cased, upper-cased and case-swapped:
+// a path that folds or otherwise normalises what was written differs from the other path in the
+// fields read back and in what the entry accepts.
+//
+// Part 1b (concurrent sessions). The admin listener runs one goroutine per connection and each calls
+// imperatives.Apply unlocked. Groups of 4 sessions, each with a table of its own, apply generated
+// configurations at the same moment (barrier before every round; commands through imperatives.Apply
+// directly, a quarter of the cases also as TOML); every session's entries go through the same oracle
+// as in part 1: no valid command refused, every field as written, same probes. On the unchanged tree
+// the race detector reports the re-initialisation of the package-level token table
+// (toki.NewScanner writes tokens[i].regexp) for these overlapping calls; the driver records those
+// reports as other_races (C20 has no race scope), they are no verdict of this check.
+//
 // Part 2 (interpolation). The real relay binary is built once with an overlay file that,
 // when VERIF_EXPAND_FILE is set, pushes texts through the real readConfigFile and exits.
 // Generated '$'-strings are compared byte for byte with oracle.ExpandConfig (only the four
@@ -39,6 +54,7 @@ import (
 	"sync"
 	"syscall"
 	"time"
+	"unicode"
 
 	"github.com/BurntSushi/toml"
 	"github.com/grafana/carbon-relay-ng/cfg"
@@ -99,8 +115,10 @@ type RWSpec struct {
 	Max    int    `json:"max"`
 	HasNot bool   `json:"hasNot"` // structured syntax only
 	Not    string `json:"not"`
-	Sample string `json:"sample"` // an input containing `old` several times
-	NotHit string `json:"notHit"` // an input the `not` pattern matches
+	Sample string `json:"sample"`               // an input containing `old` several times
+	NotHit string `json:"notHit"`               // an input the `not` pattern matches
+	OldLit string `json:"oldLiteral"`           // the literal part of `old` as it occurs in the samples
+	NotLit string `json:"notLiteral,omitempty"` // the literal part of `not` as it occurs in notHit
 }
 
 type BlackSpec struct {
@@ -170,10 +188,40 @@ type gen struct {
 func (g *gen) id() int { g.n++; return g.n }
 
 // tails exercise quoting; none contains a blank, a quote, '#', or starts a keyword of the command grammar.
-var tails = []string{"", "", "", ".x", "_y", "-z", "=", ".a=b", ":c", "/d", ",e", ";f", "[g]", "(h)", "+", "*k", "{m}", "%", "@n", "\\w", "|p", "^", "~", "é"}
+// Upper-case letters, digits and the escapes \S \D \W \d (plain text here, not classes) are part of the
+// alphabet: a path that folds or otherwise normalises what was written yields a different value.
+var tails = []string{"", "", "", ".x", "_y", "-z", "=", ".a=b", ":c", "/d", ",e", ";f", "[g]", "(h)", "+", "*k", "{m}", "%", "@n", "\\w", "|p", "^", "~", "é",
+	".X", "_Y", "-Z", ".A=B", "Q", "[A-Z]", "\\W", "\\S", "\\D", "\\d7", ".Web01", "É"}
+
+// cs gives a tag one of several letter-case patterns. Metric names, patterns, keys and templates are case
+// sensitive, so most generated values carry at least one upper-case letter: any case folding (or
+// case-insensitive comparison) on one of the two configuration paths shows in the fields read back and
+// in the behaviour of the entry.
+func (g *gen) cs(tag string) string {
+	switch g.r.Intn(6) {
+	case 0:
+		return tag
+	case 1:
+		return strings.ToUpper(tag)
+	case 2:
+		return strings.ToUpper(tag[:1]) + tag[1:]
+	}
+	b := []byte(tag)
+	up := false
+	for i := range b {
+		if g.r.Bool() {
+			b[i] = byte(unicode.ToUpper(rune(b[i])))
+			up = true
+		}
+	}
+	if !up {
+		b[len(b)-1] = byte(unicode.ToUpper(rune(b[len(b)-1])))
+	}
+	return string(b)
+}
 
 func (g *gen) lit(tag string) string {
-	return fmt.Sprintf("%s%d%s", tag, g.id(), g.r.Pick(tails))
+	return fmt.Sprintf("%s%d%s", g.cs(tag), g.id(), g.r.Pick(tails))
 }
 
 // num returns a number unique within the case that is no documented default.
@@ -193,10 +241,20 @@ var regexTails = [][2]string{
 	{`[0-9]+`, `42`},
 	{`\.(.*)\.e`, `.mid.e`},
 	{`x{2}`, `xx`},
+	// upper-case literals and ranges, negated perl classes, a named group, a non-boundary:
+	// each means something else (or nothing) once its letters are folded
+	{`\.[A-C]+Z`, `.ABZ`},
+	{`_(Q|w)X`, `_QX`},
+	{`\.\S+\.Temp`, `.rack1.Temp`},
+	{`\D\d[A-Z][a-z]+`, `x7Ab`},
+	{`\W\w+Q`, `-abQ`},
+	{`\.(?P<Nm>[^.]+)\.E`, `.mid.E`},
+	{`x\By{2}`, `xyy`},
+	{`_[[:upper:]]+[^A-Z]`, `_QRs`},
 }
 
 func (g *gen) regex(tag string) Opt {
-	lit := fmt.Sprintf("%s%d", tag, g.id())
+	lit := fmt.Sprintf("%s%d", g.cs(tag), g.id())
 	t := regexTails[g.r.Intn(len(regexTails))]
 	return Opt{V: lit + t[0], Sample: lit + t[1]}
 }
@@ -267,7 +325,7 @@ func (g *gen) dest(allowMatcher, allowSpoolTrue, instance bool) DestSpec {
 	n := g.id()
 	d := DestSpec{Addr: fmt.Sprintf("127.%d.%d.%d:%d", 20+g.idx%200, n/250, 1+n%250, g.r.PickInt(deadPorts))}
 	if instance {
-		d.Addr += ":" + fmt.Sprintf("inst%d", g.id())
+		d.Addr += ":" + fmt.Sprintf("%s%d", g.cs("inst"), g.id())
 	}
 	var opts []Opt
 	if allowMatcher {
@@ -293,7 +351,7 @@ func (g *gen) dest(allowMatcher, allowSpoolTrue, instance bool) DestSpec {
 }
 
 func (g *gen) carbonRoute(allowSpoolTrue bool) RouteSpec {
-	rt := RouteSpec{Type: g.r.Pick(oracle.CfgCarbonRouteTypes), Key: fmt.Sprintf("rt%d-%d%s", g.idx, g.id(), g.r.Pick([]string{"", ".a", "_b"}))}
+	rt := RouteSpec{Type: g.r.Pick(oracle.CfgCarbonRouteTypes), Key: fmt.Sprintf("%s%d-%d%s", g.cs("rt"), g.idx, g.id(), g.r.Pick([]string{"", ".a", "_b", ".A", "_B"}))}
 	rt.Match = g.matchOpts(true)
 	nd := g.r.Range(1, 4)
 	ch := rt.Type == "consistentHashing"
@@ -314,11 +372,11 @@ var gnRanges = map[string][2]int{
 // grafanaNet routes are never shut down (see res.Assume), so the two expensive defaults
 // (100 workers, 10M queue slots) are only left to the default when allowBigDefaults is set.
 func (g *gen) gnRoute(srvURL, schemas, aggs string, allowBigDefaults bool) RouteSpec {
-	rt := RouteSpec{Type: "grafanaNet", Key: fmt.Sprintf("gn%d-%d", g.idx, g.id())}
+	rt := RouteSpec{Type: "grafanaNet", Key: fmt.Sprintf("%s%d-%d", g.cs("gn"), g.idx, g.id())}
 	rt.Match = g.matchOpts(true)
 	gn := &GNSpec{
-		Addr:            fmt.Sprintf("%s/c%dn%d/metrics", srvURL, g.idx, g.id()),
-		ApiKey:          fmt.Sprintf("key%d%s", g.id(), g.r.Pick([]string{"", ".x", "_y", "-z", "=", ":c"})),
+		Addr:            fmt.Sprintf("%s/%s%dn%d/metrics", srvURL, g.cs("c"), g.idx, g.id()),
+		ApiKey:          fmt.Sprintf("%s%d%s", g.cs("key"), g.id(), g.r.Pick([]string{"", ".x", "_y", "-z", "=", ":c", ".X", "Z"})),
 		ApiKeySpelling:  g.r.Pick([]string{"apikey", "apiKey"}),
 		SchemasFile:     schemas,
 		AggregationFile: aggs,
@@ -352,6 +410,13 @@ func (g *gen) gnRoute(srvURL, schemas, aggs string, allowBigDefaults bool) Route
 	return rt
 }
 
+// two groups each (the format refers to $1 and $2)
+var aggRegexTails = [][2]string{
+	{`\.(a|b)[0-9]+\.(.*)`, ".a7.tail"},
+	{`\.(A|b)\d+\.(\S*)`, ".A7.Tail"},
+	{`\.([A-Z]\D)[0-9]+\.(.*)`, ".Qx7.tail"},
+}
+
 func (g *gen) agg(tomlOnlyFun bool) AggSpec {
 	a := AggSpec{}
 	if tomlOnlyFun {
@@ -360,8 +425,9 @@ func (g *gen) agg(tomlOnlyFun bool) AggSpec {
 		a.Fun = g.r.Pick(oracle.CfgAggFunctionsCommand)
 	}
 	// regex is mandatory and carries the groups the format refers to
-	lit := fmt.Sprintf("ag%d", g.id())
-	rx := Opt{N: "regex", V: lit + `\.(a|b)[0-9]+\.(.*)`, Sample: lit + ".a7.tail"}
+	lit := fmt.Sprintf("%s%d", g.cs("ag"), g.id())
+	art := aggRegexTails[g.r.Intn(len(aggRegexTails))]
+	rx := Opt{N: "regex", V: lit + art[0], Sample: lit + art[1]}
 	others := g.matchOpts(true)
 	var m []Opt
 	for _, o := range others {
@@ -371,7 +437,7 @@ func (g *gen) agg(tomlOnlyFun bool) AggSpec {
 	}
 	m = append(m, rx)
 	a.Match = g.shuffle(m)
-	a.Format = fmt.Sprintf("out%d.%s.%s", g.id(), g.r.Pick([]string{"$1", "${1}", "_sum_$1"}), g.r.Pick([]string{"$2", "${2}x", "$2.sum"}))
+	a.Format = fmt.Sprintf("%s%d.%s.%s", g.cs("out"), g.id(), g.r.Pick([]string{"$1", "${1}", "_sum_$1", "_Sum_$1"}), g.r.Pick([]string{"$2", "${2}x", "$2.sum", "${2}X", "$2.Sum"}))
 	a.Interval = g.num(1, 900)
 	a.Wait = g.num(1, 900)
 	a.Cache = g.tri()
@@ -381,12 +447,14 @@ func (g *gen) agg(tomlOnlyFun bool) AggSpec {
 
 func (g *gen) rw() RWSpec {
 	w := RWSpec{}
-	old := fmt.Sprintf("old%d", g.id())
+	old := fmt.Sprintf("%s%d", g.cs("old"), g.id())
+	w.OldLit = old
 	if g.r.Intn(3) == 0 { // regular expression form
-		w.Old = "/" + old + `\.([a-z]+)/`
-		w.New = fmt.Sprintf("new%d.${1}.c", g.id())
+		grp := rwGroups[g.r.Intn(len(rwGroups))]
+		w.Old = "/" + old + `\.` + grp[0] + "/"
+		w.New = fmt.Sprintf("%s%d.${1}.%s", g.cs("new"), g.id(), g.r.Pick([]string{"c", "C"}))
 		w.Max = -1
-		w.Sample = "a." + old + ".foo.b." + old + ".bar.c"
+		w.Sample = "a." + old + "." + grp[1] + ".b." + old + "." + grp[2] + ".c"
 	} else {
 		w.Old = old + g.r.Pick([]string{"", ".", "_"})
 		w.New = g.lit("new")
@@ -395,16 +463,29 @@ func (g *gen) rw() RWSpec {
 	}
 	if g.r.Bool() {
 		w.HasNot = true
-		nl := fmt.Sprintf("not%d", g.id())
-		if g.r.Bool() {
+		nl := fmt.Sprintf("%s%d", g.cs("not"), g.id())
+		w.NotLit = nl
+		switch {
+		case g.r.Intn(4) == 0:
+			w.Not = "/" + nl + `\d+[A-Z]\S/`
+			w.NotHit = w.Sample + "." + nl + "77Qx"
+		case g.r.Bool():
 			w.Not = "/" + nl + `[0-9]+/`
 			w.NotHit = w.Sample + "." + nl + "77"
-		} else {
+		default:
 			w.Not = nl
 			w.NotHit = w.Sample + "." + nl
 		}
 	}
 	return w
+}
+
+// capture group of a regular-expression rewriter and two words it matches
+var rwGroups = [][3]string{
+	{`([a-z]+)`, "foo", "bar"},
+	{`([A-Z][a-z]+)`, "Foo", "Bar"},
+	{`(\D\w*)`, "Foo", "bar"},
+	{`([^.\d]+)`, "fOO", "BAR"},
 }
 
 func (g *gen) black() BlackSpec {
@@ -445,10 +526,12 @@ func kindOf(seed uint64, idx int) string {
 	return "carbon"
 }
 
-func genCase(seed uint64, idx int) Case {
+func genCase(seed uint64, idx int) Case { return genCaseKind(seed, idx, kindOf(seed, idx)) }
+
+func genCaseKind(seed uint64, idx int, kind string) Case {
 	r := mon.NewRng(seed, 20, uint64(idx))
 	g := &gen{r: r, idx: idx, used: map[int]bool{}}
-	c := Case{Index: idx, Kind: kindOf(seed, idx), ViaInit: r.Bool()}
+	c := Case{Index: idx, Kind: kind, ViaInit: r.Bool()}
 	// spooling destinations leak one goroutine each when shut down (NewSlowChan never ends):
 	// rationed in the thorough tier so that the race detector's goroutine limit is never near.
 	allowSpool := !mon.Thorough() || r.Intn(20) == 0
@@ -682,6 +765,8 @@ func buildFromTOML(text, spool string) (*tbl, error) {
 func buildFromCmds(cmds []string, spool string) (*tbl, error) {
 	t := &tbl{spool: spool}
 	for i, c := range cmds {
+		// imperatives.Apply itself, not mon.Apply: the admin listener calls it from one goroutine per
+		// connection without any lock, and the sessions part of this check does the same
 		if err := imperatives.Apply(t, c); err != nil {
 			return t, fmt.Errorf("command #%d %q: %v", i+1, c, err)
 		}
@@ -951,7 +1036,9 @@ var idxRe = regexp.MustCompile(`\[\d+\]`)
 // ---------------------------------------------------------------------------
 // behavioural probes
 
-// probeNames builds names that violate chosen subsets of the filter options that are set.
+// probeNames builds names that violate chosen subsets of the filter options that are set, and near
+// misses of those in which the text of exactly one option appears with the case of its letters swapped
+// (the options are case sensitive: such a name fails a positive option and escapes a negative one).
 func probeNames(eff map[string]Opt) []string {
 	val := func(n string) string { return eff[n].V }
 	smp := func(n string) string {
@@ -960,42 +1047,56 @@ func probeNames(eff map[string]Opt) []string {
 		}
 		return eff[n].V
 	}
-	build := func(viol string) string {
+	build := func(viol, swap string) string {
+		sw := func(n, text string) string {
+			if n == swap {
+				return swapCase(text)
+			}
+			return text
+		}
 		start := "zz"
 		if val("prefix") != "" && viol != "prefix" {
-			start = val("prefix")
+			start = sw("prefix", val("prefix"))
 		}
 		if viol == "notPrefix" {
-			start = val("notPrefix")
+			start = sw("notPrefix", val("notPrefix"))
 		}
 		name := start + ".m"
 		if val("sub") != "" && viol != "sub" {
-			name += "." + val("sub")
+			name += "." + sw("sub", val("sub"))
 		}
 		if viol == "notSub" {
-			name += "." + val("notSub")
+			name += "." + sw("notSub", val("notSub"))
 		}
 		if val("regex") != "" && viol != "regex" {
-			name += "." + smp("regex")
+			name += "." + sw("regex", smp("regex"))
 		}
 		if viol == "notRegex" {
-			name += "." + smp("notRegex")
+			name += "." + sw("notRegex", smp("notRegex"))
 		}
 		return name + ".t"
 	}
-	names := []string{build("")}
+	names := []string{build("", "")}
 	for _, n := range oracle.CfgMatcherOptions {
-		if val(n) != "" {
-			names = append(names, build(n))
+		if val(n) == "" {
+			continue
+		}
+		names = append(names, build(n, ""))
+		if strings.HasPrefix(n, "not") {
+			names = append(names, build(n, n)) // the excluded text, in another case
+		} else {
+			names = append(names, build("", n)) // everything as required, this option's text in another case
 		}
 	}
 	return names
 }
 
 type prober struct {
-	res   *mon.Result
-	c     *Case
-	texts map[string]interface{}
+	res       *mon.Result
+	c         *Case
+	texts     map[string]interface{}
+	sigPrefix string // "concurrent:" for the cases of the sessions part
+	where     string
 }
 
 func (p *prober) matcher(syntax, what string, opts []Opt, match func([]byte) bool) {
@@ -1004,19 +1105,57 @@ func (p *prober) matcher(syntax, what string, opts []Opt, match func([]byte) boo
 	if err != nil {
 		panic("generator produced an invalid regex: " + err.Error())
 	}
-	for i, name := range probeNames(eff) {
+	base := probeNames(eff)
+	if !ref.Accept(base[0]) {
+		panic(fmt.Sprintf("probe construction: %q should satisfy %v", base[0], ref))
+	}
+	// every probe also with its letters folded / swapped: the options are case sensitive, so these are
+	// near misses of the names above (a filter that folds its pattern, or compares without regard to
+	// case, answers them differently from the documented one)
+	for _, name := range caseVariants(base) {
 		want := ref.Accept(name)
-		if i == 0 && !want {
-			panic(fmt.Sprintf("probe construction: %q should satisfy %v", name, ref))
-		}
 		got := match([]byte(name))
 		p.res.Count("filter_probes", 1)
+		if hasUpper(name) && hasLower(name) {
+			p.res.Count("filter_probes_mixed_case", 1)
+		}
 		if got != want {
-			p.res.Violate(syntax+":filter-behaviour:"+idxRe.ReplaceAllString(what, ""),
-				fmt.Sprintf("%s built from the %s form: name %q is %s by the entry's filter, the documented filter options %s say %s",
-					what, syntax, name, passWord(got), ref, passWord(want)), p.witness())
+			p.res.Violate(p.sigPrefix+syntax+":filter-behaviour:"+idxRe.ReplaceAllString(what, ""),
+				fmt.Sprintf("%s%s built from the %s form: name %q is %s by the entry's filter, the documented filter options %s say %s",
+					p.where, what, syntax, name, passWord(got), ref, passWord(want)), p.witness())
 		}
 	}
+}
+
+func hasUpper(s string) bool { return strings.IndexFunc(s, unicode.IsUpper) >= 0 }
+func hasLower(s string) bool { return strings.IndexFunc(s, unicode.IsLower) >= 0 }
+
+func swapCase(s string) string {
+	return strings.Map(func(r rune) rune {
+		switch {
+		case unicode.IsUpper(r):
+			return unicode.ToLower(r)
+		case unicode.IsLower(r):
+			return unicode.ToUpper(r)
+		}
+		return r
+	}, s)
+}
+
+// caseVariants: each name as it is, lower-cased, upper-cased and with the case of every letter swapped
+// (duplicates removed, order kept).
+func caseVariants(names []string) []string {
+	seen := map[string]bool{}
+	var out []string
+	for _, n := range names {
+		for _, v := range []string{n, strings.ToLower(n), strings.ToUpper(n), swapCase(n)} {
+			if !seen[v] {
+				seen[v] = true
+				out = append(out, v)
+			}
+		}
+	}
+	return out
 }
 
 func passWord(b bool) string {
@@ -1027,7 +1166,11 @@ func passWord(b bool) string {
 }
 
 func (p *prober) witness() interface{} {
-	return map[string]interface{}{"case": p.c, "toml": p.texts["toml"], "commands": p.texts["commands"]}
+	w := map[string]interface{}{"case": p.c, "toml": p.texts["toml"], "commands": p.texts["commands"]}
+	if ss, ok := p.texts["concurrentSession"]; ok {
+		w["concurrentSession"] = ss
+	}
+	return w
 }
 
 // rewriter: documented meaning on a sample input (docs/rewriting.md).
@@ -1068,15 +1211,27 @@ func (p *prober) table(syntax string, t *tbl) {
 		if i >= len(t.Rewriters) {
 			continue
 		}
+		var inputs []string
 		for _, in := range []string{w.Sample, w.NotHit} {
-			if in == "" {
-				continue
+			if in != "" {
+				inputs = append(inputs, in)
 			}
+		}
+		// near misses: the whole input in another case, and only the text of `old` / of `not` in another case
+		inputs = caseVariants(inputs)
+		for _, in := range inputs[:len(inputs):len(inputs)] {
+			for _, lit := range []string{w.OldLit, w.NotLit} {
+				if v := strings.Replace(in, lit, swapCase(lit), -1); lit != "" && v != in {
+					inputs = append(inputs, v)
+				}
+			}
+		}
+		for _, in := range inputs {
 			want := rwReference(w, syntax, in)
 			got := string(t.Rewriters[i].Do([]byte(in)))
 			p.res.Count("rewriter_probes", 1)
 			if got != want {
-				p.res.Violate(syntax+":rewriter-behaviour", fmt.Sprintf("rewriter[%d] built from the %s form rewrites %q to %q, the documented meaning of old=%q new=%q not=%q max=%d gives %q", i, syntax, in, got, w.Old, w.New, w.Not, w.Max, want), p.witness())
+				p.res.Violate(p.sigPrefix+syntax+":rewriter-behaviour", fmt.Sprintf(p.where+"rewriter[%d] built from the %s form rewrites %q to %q, the documented meaning of old=%q new=%q not=%q max=%d gives %q", i, syntax, in, got, w.Old, w.New, w.Not, w.Max, want), p.witness())
 			}
 		}
 	}
@@ -1228,17 +1383,68 @@ func (w *gnWatch) count(key string) int {
 	return w.posts[key]
 }
 
-func (w *worker) runCase(res *mon.Result, c Case, scratch string, watch *gnWatch) {
+// session describes the circumstances of a case of the concurrent-sessions part (nil = a case run alone).
+type session struct {
+	Group    int      `json:"group"`
+	Session  int      `json:"session"`
+	Round    int      `json:"round"`
+	Syntaxes []string `json:"syntaxes"`
+	// what the other sessions of the group apply in the same round (their cases are functions of seed and index)
+	Others []sessionPeer `json:"otherSessionsSameRound"`
+	fly    *inflight
+}
+
+type sessionPeer struct {
+	Session  int      `json:"session"`
+	Index    int      `json:"index"`
+	Syntaxes []string `json:"syntaxes"`
+	Commands []string `json:"commands"`
+}
+
+// inflight counts the builds of a group that are running right now.
+type inflight struct {
+	mu  sync.Mutex
+	n   int
+	gen int // bumped whenever a build starts
+}
+
+func (f *inflight) enter() (others, gen int) {
+	f.mu.Lock()
+	defer f.mu.Unlock()
+	f.n++
+	f.gen++
+	return f.n - 1, f.gen
+}
+
+func (f *inflight) leave(genAtEnter int) (overlapped bool) {
+	f.mu.Lock()
+	defer f.mu.Unlock()
+	f.n--
+	return f.n > 0 || f.gen != genAtEnter
+}
+
+func (w *worker) runCase(res *mon.Result, c Case, scratch string, watch *gnWatch, ss *session) {
 	tomlText := tomlOf(c)
 	cmds := cmdsOf(c)
 	texts := map[string]interface{}{"toml": tomlText, "commands": cmds}
-	res.LogCase("case %d kind=%s viaInit=%v commands=%q", c.Index, c.Kind, c.ViaInit, cmds)
+	sigPrefix, where := "", ""
+	if ss == nil {
+		res.LogCase("case %d kind=%s viaInit=%v commands=%q", c.Index, c.Kind, c.ViaInit, cmds)
+	} else {
+		res.LogCase("case %d kind=%s viaInit=%v group=%d session=%d round=%d syntaxes=%v commands=%q", c.Index, c.Kind, c.ViaInit, ss.Group, ss.Session, ss.Round, ss.Syntaxes, cmds)
+		sigPrefix = "concurrent:"
+		where = fmt.Sprintf("session %d of %d concurrent admin/configuration sessions, each with a table of its own (group %d, round %d): ", ss.Session, len(ss.Others)+1, ss.Group, ss.Round)
+		texts["concurrentSession"] = ss
+	}
 	sig, nset, nomit, nentries := presence(c)
 	res.Count("options_given", nset)
 	res.Count("options_left_to_default", nomit)
 	res.Count("entries_described", nentries)
 	witness := map[string]interface{}{"case": c, "toml": tomlText, "commands": cmds}
-	pr := &prober{res: res, c: &c, texts: texts}
+	if ss != nil {
+		witness["concurrentSession"] = ss
+	}
+	pr := &prober{res: res, c: &c, texts: texts, sigPrefix: sigPrefix, where: where}
 
 	type built struct {
 		syntax string
@@ -1251,10 +1457,17 @@ func (w *worker) runCase(res *mon.Result, c Case, scratch string, watch *gnWatch
 	if c.TOMLOnly {
 		syntaxes = syntaxes[:1]
 	}
+	if ss != nil {
+		syntaxes = ss.Syntaxes
+	}
 	for _, syntax := range syntaxes {
 		spool := filepath.Join(scratch, "spool", fmt.Sprintf("%d-%s", c.Index, syntax))
 		var t *tbl
 		var err error
+		others, genAtEnter := 0, 0
+		if ss != nil {
+			others, genAtEnter = ss.fly.enter()
+		}
 		if syntax == "toml" {
 			t, err = buildFromTOML(tomlText, spool)
 		} else if c.ViaInit {
@@ -1262,10 +1475,23 @@ func (w *worker) runCase(res *mon.Result, c Case, scratch string, watch *gnWatch
 		} else {
 			t, err = buildFromCmds(cmds, spool)
 		}
+		if ss != nil {
+			res.Count("session_builds", 1)
+			if ss.fly.leave(genAtEnter) || others > 0 {
+				res.Count("session_builds_overlapping_another_sessions_build", 1)
+			}
+			if syntax == "command" {
+				res.Count("session_commands_applied", len(cmds))
+			}
+		}
 		w.pending = append(w.pending, pendingShutdown{t, time.Now()})
 		res.Count("tables_built_"+syntax, 1)
 		if err != nil {
-			res.Violate(syntax+":rejected:"+c.Kind, fmt.Sprintf("a configuration that uses documented options with legal values only is rejected in its %s form: %v", syntax, err), witness)
+			detail := ""
+			if syntax == "command" && c.ViaInit {
+				detail = fmt.Sprintf(" ([init] cmds = %q)", cmds)
+			}
+			res.Violate(sigPrefix+syntax+":rejected:"+c.Kind, fmt.Sprintf("%sa configuration that uses documented options with legal values only is rejected in its %s form: %v%s", where, syntax, err, detail), witness)
 			continue
 		}
 		bs = append(bs, built{syntax, t, observe(t), expect(c, syntax, spool)})
@@ -1292,7 +1518,7 @@ func (w *worker) runCase(res *mon.Result, c Case, scratch string, watch *gnWatch
 			if !ok {
 				got = "<entry missing>"
 			}
-			msg := fmt.Sprintf("%s: built from the %s form it is %q, written/documented is %q", k, b.syntax, got, want)
+			msg := fmt.Sprintf("%s%s: built from the %s form it is %q, written/documented is %q", where, k, b.syntax, got, want)
 			if ov, ok := other[k]; ok {
 				msg += fmt.Sprintf(" (the other syntax gives %q)", ov)
 			}
@@ -1303,11 +1529,16 @@ func (w *worker) runCase(res *mon.Result, c Case, scratch string, watch *gnWatch
 					break
 				}
 			}
-			res.Violate(b.syntax+":"+idxRe.ReplaceAllString(k, ""), msg, witness)
+			if ss != nil { // is it what another session wrote at the same moment?
+				if who := ss.whoWrote(got); who != "" {
+					msg += "; " + who
+				}
+			}
+			res.Violate(sigPrefix+b.syntax+":"+idxRe.ReplaceAllString(k, ""), msg, witness)
 		}
 		for k := range b.obs {
 			if _, ok := b.exp[k]; !ok {
-				res.Violate(b.syntax+":unexpected:"+idxRe.ReplaceAllString(k, ""), fmt.Sprintf("%s=%q exists in the table built from the %s form but nothing was configured there", k, b.obs[k], b.syntax), witness)
+				res.Violate(sigPrefix+b.syntax+":unexpected:"+idxRe.ReplaceAllString(k, ""), fmt.Sprintf("%s%s=%q exists in the table built from the %s form but nothing was configured there", where, k, b.obs[k], b.syntax), witness)
 			}
 		}
 		pr.table(b.syntax, b.t)
@@ -1343,11 +1574,130 @@ func (w *worker) runCase(res *mon.Result, c Case, scratch string, watch *gnWatch
 		}
 	}
 	res.Eval(1)
+	if ss != nil {
+		// non-trivial here: the entry was built while another session's build was in progress (counted above)
+		if len(bs) == len(syntaxes) {
+			res.NonTrivial("sessions|" + strings.Join(syntaxes, "+") + "|" + sig)
+		}
+		w.drainPending(false)
+		return
+	}
 	if nset > 0 && nomit > 0 && len(bs) == len(syntaxes) {
 		res.NonTrivial(sig)
 	}
 	res.Sample(map[string]interface{}{"index": c.Index, "kind": c.Kind, "toml": tomlText, "commands": cmds, "commandsViaInitCmds": c.ViaInit})
 	w.drainPending(false)
+}
+
+// ---------------------------------------------------------------------------
+// part 1b: several admin / configuration sessions at the same moment
+//
+// The admin listener serves every connection in its own goroutine and each handler calls
+// imperatives.Apply without a lock; nothing in the documentation restricts the admin interface to one
+// client. What a command means must not depend on what another session is sending at that moment:
+// every session here applies its own generated configuration to a table of its OWN (so the entries
+// cannot legitimately interact) and the result goes through exactly the same oracle as a case run
+// alone: no valid command refused, every field as written / documented default, same probes.
+// The sessions of a group pass a barrier before every round, so their builds start together; how many
+// builds really ran while another session's build was in progress is counted (and has a floor).
+
+// whoWrote tells whether a value found in this session's entry occurs in the text another session
+// of the group applied in the same round.
+func (ss *session) whoWrote(v string) string {
+	if len(v) < 3 {
+		return ""
+	}
+	for _, o := range ss.Others {
+		for _, c := range o.Commands {
+			if strings.Contains(c, v) {
+				return fmt.Sprintf("that text is part of what session %d applied in the same round: %q", o.Session, c)
+			}
+		}
+	}
+	return ""
+}
+
+const sessionBase = 2000000 // case indices of the sessions part
+
+func sessionKind(r *mon.Rng) string {
+	x := r.Intn(20)
+	switch {
+	case x < 6:
+		return "blacklist"
+	case x < 10:
+		return "rewriter"
+	case x < 12: // every aggregator leaks its ticker goroutine: few
+		return "aggregation"
+	case x < 18:
+		return "carbon"
+	}
+	return "mixed"
+}
+
+func runSessions(res *mon.Result, scratch string, watch *gnWatch, groups, nsess, rounds int) (ran int) {
+	for g := 0; g < groups; g++ {
+		if !mon.Mine(g) {
+			continue
+		}
+		if n := runtime.NumGoroutine(); n > 7000 {
+			res.Inconclusive(fmt.Sprintf("sessions part stopped at group %d: %d goroutines alive, too close to the race detector's limit", g, n))
+			break
+		}
+		// the plan of the whole group is fixed before anything runs: (seed, group, session, round) -> case
+		plan := make([][]Case, nsess)
+		syn := make([][][]string, nsess)
+		for s := 0; s < nsess; s++ {
+			for r := 0; r < rounds; r++ {
+				idx := sessionBase + (g*nsess+s)*rounds + r
+				pr := mon.NewRng(mon.Seed(), 23, uint64(idx))
+				c := genCaseKind(mon.Seed(), idx, sessionKind(pr))
+				c.TOMLOnly = false
+				for i := range c.Agg { // the command grammar has no percentiles
+					if c.Agg[i].Fun == "percentiles" {
+						c.Agg[i].Fun = "sum"
+					}
+				}
+				sy := []string{"command"}
+				if pr.Intn(4) == 0 { // a configuration file being loaded next to the admin sessions (ParseDestinations)
+					sy = []string{"toml", "command"}
+				}
+				plan[s] = append(plan[s], c)
+				syn[s] = append(syn[s], sy)
+			}
+		}
+		res.LogCase("sessions group %d: %d sessions x %d rounds, cases %d..%d", g, nsess, rounds, sessionBase+g*nsess*rounds, sessionBase+(g+1)*nsess*rounds-1)
+		fly := &inflight{}
+		barriers := make([]sync.WaitGroup, rounds)
+		for r := range barriers {
+			barriers[r].Add(nsess)
+		}
+		var wg sync.WaitGroup
+		var mu sync.Mutex
+		for s := 0; s < nsess; s++ {
+			wg.Add(1)
+			go func(s int) {
+				defer wg.Done()
+				w := &worker{}
+				for r := 0; r < rounds; r++ {
+					ss := &session{Group: g, Session: s, Round: r, Syntaxes: syn[s][r], fly: fly}
+					for o := 0; o < nsess; o++ {
+						if o != s {
+							ss.Others = append(ss.Others, sessionPeer{Session: o, Index: plan[o][r].Index, Syntaxes: syn[o][r], Commands: cmdsOf(plan[o][r])})
+						}
+					}
+					barriers[r].Done()
+					barriers[r].Wait()
+					w.runCase(res, plan[s][r], scratch, watch, ss)
+					mu.Lock()
+					ran++
+					mu.Unlock()
+				}
+				w.drainPending(true)
+			}(s)
+		}
+		wg.Wait()
+	}
+	return ran
 }
 
 // ---------------------------------------------------------------------------
@@ -1572,11 +1922,12 @@ func runExpand(res *mon.Result, scratch string, nStrings int) (done int) {
 
 func main() {
 	res := mon.NewResult("C20")
-	res.Rule = "part 1: configurations generated from (seed,index): blacklist entries (6 kinds), rewriters (plain/regex, max, not), aggregations (9 command functions + percentiles TOML-only, 6 filter options, sub/substr spellings, cache and dropRaw given true/false/omitted), carbon routes (3 types, 6 filter options, 1-4 destinations each with a random subset of the 18 documented destination options) and grafanaNet routes (all 11 options, booleans true/false/omitted, 1-2 routes per file, sometimes next to a carbon route); each option value unique within its case and never equal to a documented default; each configuration is built from its TOML form and from the equivalent commands (directly, or through an [init] cmds array) and every field is compared with written-value-else-documented-default; evaluation = one configuration (both syntaxes) or one '$'-string; non-trivial = at least one option given and one left to its default and both syntaxes built; distinct = distinct given/omitted patterns (values ignored). part 2: '$'-strings from a grammar of documented references, near misses, group references ($1 ${1} ${1}x), $$ ${} unterminated braces, shell specials, non-ASCII bytes, read through the real readConfigFile in the real binary; non-trivial = contains a documented reference and a '$' that must stay. Values are restricted to what the command grammar can express at all: no blanks, no quotes or '#', not all digits, not starting with true/false or a command keyword. kafkaMdm, pubsub and cloudWatch routes cannot be constructed offline (brokers / credentials) and are out of scope."
+	res.Rule = "part 1: configurations generated from (seed,index): blacklist entries (6 kinds), rewriters (plain/regex, max, not), aggregations (9 command functions + percentiles TOML-only, 6 filter options, sub/substr spellings, cache and dropRaw given true/false/omitted), carbon routes (3 types, 6 filter options, 1-4 destinations each with a random subset of the 18 documented destination options) and grafanaNet routes (all 11 options, booleans true/false/omitted, 1-2 routes per file, sometimes next to a carbon route); each option value unique within its case and never equal to a documented default; each configuration is built from its TOML form and from the equivalent commands (directly, or through an [init] cmds array) and every field is compared with written-value-else-documented-default; names, patterns, keys and templates are mixed-case and use \\S \\D \\W \\d \\B, [A-Z] ranges and named groups, and every filter/rewriter probe is repeated lower-cased, upper-cased and case-swapped; part 1b: groups of 4 concurrent sessions (own table each, barrier before each round) apply generated blacklist/rewriter/aggregation/carbon configurations through imperatives.Apply (a quarter also as TOML) and are judged by the same oracle; evaluation = one configuration (both syntaxes) or one '$'-string; non-trivial = at least one option given and one left to its default and both syntaxes built; distinct = distinct given/omitted patterns (values ignored). part 2: '$'-strings from a grammar of documented references, near misses, group references ($1 ${1} ${1}x), $$ ${} unterminated braces, shell specials, non-ASCII bytes, read through the real readConfigFile in the real binary; non-trivial = contains a documented reference and a '$' that must stay. Values are restricted to what the command grammar can express at all: no blanks, no quotes or '#', not all digits, not starting with true/false or a command keyword. kafkaMdm, pubsub and cloudWatch routes cannot be constructed offline (brokers / credentials) and are out of scope."
 	res.Assume("the documentation (docs/config.md, docs/tcp-admin-interface.md, docs/aggregation.md, docs/rewriting.md, examples/carbon-relay-ng.ini) is the specification; 2M = 2 000 000, 10k = 10 000, 200MiB = 200*1024*1024")
 	res.Assume("${HOST} is the first label of os.Hostname() of the machine running the check")
 	res.Assume("table.MockTable (embedded, with GetSpoolDir overridden to a scratch directory) receives exactly what the real table would")
 	res.Assume("grafanaNet routes are inspected but never shut down (known defect F7); destinations point at loopback addresses nothing listens on (127.20-219.x.y, ports 1-16, checked at start-up)")
+	res.Assume("concurrent admin sessions are within the documented use of the admin interface (one goroutine per connection, no limit on clients); the sessions of part 1b use separate tables, so only the command interpreter is shared between them")
 	res.Assume("the read-only accessors under /verif/access/{destination,route,nsqd,cmd/carbon-relay-ng} copy fields and call readConfigFile; they change nothing")
 
 	debug.SetGCPercent(400) // many short-lived tables; memory is not the scarce resource here
@@ -1609,9 +1960,9 @@ func main() {
 		}
 	}
 
-	// part 1. One configuration at a time: imperatives.Apply / ParseDestinations re-initialise a
-	// package-level token table on every call and are therefore not safe to call concurrently
-	// (the race detector says so at once). Parallelism comes from the driver's shards.
+	// part 1. One configuration at a time; parallelism comes from the driver's shards. (imperatives.Apply /
+	// ParseDestinations re-initialise a package-level token table on every call, which the race detector
+	// reports as soon as two calls overlap; part 1b overlaps them on purpose, see there.)
 	n := mon.N(200, 5000)
 	ngn := mon.N(24, 64)
 	if v, err := strconv.Atoi(os.Getenv("C20_N")); err == nil && v > 0 { // development aid only
@@ -1628,11 +1979,16 @@ func main() {
 			res.Inconclusive(fmt.Sprintf("stopped at case %d: %d goroutines alive (leaked by the entries built so far), too close to the race detector's limit", i, g))
 			break
 		}
-		w0.runCase(res, genCase(mon.Seed(), i), scratch, watch)
+		w0.runCase(res, genCase(mon.Seed(), i), scratch, watch, nil)
 		ran++
 	}
 	w0.drainPending(true)
 	fmt.Printf("part 1: %d configurations in %.1fs\n", ran, time.Since(t0).Seconds())
+	t0 = time.Now()
+	// part 1b: concurrent sessions, after the sequential cases (which stay undisturbed) are done
+	sGroups, sSess, sRounds := mon.N(6, 24), 4, mon.N(6, 8)
+	ranSess := runSessions(res, scratch, watch, sGroups, sSess, sRounds)
+	fmt.Printf("part 1b: %d configurations in concurrent sessions in %.1fs\n", ranSess, time.Since(t0).Seconds())
 	t0 = time.Now()
 	// grafanaNet configurations, one at a time, last (their routes stay alive); the ones that leave
 	// concurrency and bufSize to the (large) defaults come at the very end
@@ -1643,7 +1999,7 @@ func main() {
 			if !mon.Mine(i) || gnBig(i) != (pass == 1) {
 				continue
 			}
-			w.runCase(res, genGNCase(mon.Seed(), i, srv.URL, schemas, aggs), scratch, watch)
+			w.runCase(res, genGNCase(mon.Seed(), i, srv.URL, schemas, aggs), scratch, watch, nil)
 			rangn++
 		}
 	}
@@ -1682,6 +2038,16 @@ func main() {
 	res.Set("leaked_connect_goroutines", bytes.Count(stack, []byte("(*Destination).updateConn")))
 	res.Floor("configurations", ran, n)
 	res.Floor("grafananet_configurations", rangn, ngn)
+	res.Floor("session_configurations", ranSess, sGroups*sSess*sRounds)
+	{
+		res.Count("session_builds_overlapping_another_sessions_build", 0)
+		res.Count("session_commands_applied", 0)
+		over, _ := res.Extra["session_builds_overlapping_another_sessions_build"].(int)
+		ncmd, _ := res.Extra["session_commands_applied"].(int)
+		// a sessions part whose builds never met would have observed nothing about concurrency
+		res.Floor("session_builds_overlapping_another_sessions_build", over, sGroups*sSess*sRounds/4)
+		res.Floor("session_commands_applied", ncmd, sGroups*sSess*sRounds)
+	}
 	res.Floor("expand_strings", expandDone, nStrings)
 	if _, ns := mon.Shard(); ns == 1 {
 		res.Floor("documented_options_seen_given_and_omitted", both, total)
